@@ -290,7 +290,7 @@ def _untransform_numerical_param(
             if transform_log:
                 param = int(np.clip(np.round(math.exp(trans_param)), d.low, d.high))
             else:
-                param = int(trans_param)
+                param = int(np.clip(np.round(trans_param), d.low, d.high))
         else:
             param = int(
                 np.clip(np.round((trans_param - d.low) / d.step) * d.step + d.low, d.low, d.high)
